@@ -156,3 +156,70 @@ CONTRACTS["excel:TimeDependentConnections.from_tables#row_without_data"] = dict(
 CONTRACTS["excel:TimeDependentConnections.from_tables#row_with_an_unknown_population"] = dict(
     schema=schema, fragment={"iter": "tables[2][1:]"}, make_env=_make_env_read_tdc("a", "z"), call_stubs=_rd_stubs, concrete_new=["TimeSeries"],
     raises={"AssertionError": "True"}, raises_props=["C16", "C18"], ensures=[], defined_props=["C16", "C18"])
+
+
+# ---- the header of a written table and the columns the rows will use (everything in TimeDependentValuesEntry.write before the row loop), and the header as read
+# back (_parse_ts_header): the column in which a heading is written is the column its values are written to, and is the column the reader resolves for it
+def _make_env_header(settings, data, heading="Constant"):
+    def make(it):
+        from pyvc.interp import PyObjV
+        from pyvc.core import Opaque
+        from pyvc import source
+
+        em, um = source.load("excel"), source.load("utils")
+        row_ts = PyObjV("TimeSeries", um, {"t": [2021.0], "vals": [1.0], "units": "probability" if data else None, "assumption": 0.5 if data else None, "sigma": 0.1 if data else None, "_sampled": False})
+        self = PyObjV("TimeDependentValuesEntry", em, {"name": "table", "ts": {"adults": row_ts}, "ts_attributes": {"Provenance": {}}, "allowed_units": None, "tvec": np.array([2020.0, 2021.0]), "comment": None,
+                                                       "assumption_heading": heading, "write_units": settings, "write_uncertainty": settings, "write_assumption": settings})
+        return {"self": self, "start_row": 3, "references": None, "widths": {}, "formats": Opaque("formats"), "worksheet": PyObjV("Worksheet", em, {"CELLS": {}})}
+
+    return make
+
+
+_hdr_stubs = dict(_stubs)
+_hdr_stubs.update({"pd.isna": (lambda it, v: v is None), "worksheet.write_comment": _noop})
+_full = ("worksheet.CELLS[3, 0] == 'table' and worksheet.CELLS[3, 1] == 'Provenance' and worksheet.CELLS[3, 2] == 'Units' and worksheet.CELLS[3, 3] == 'Uncertainty' and worksheet.CELLS[3, 4] == %r and worksheet.CELLS[3, 5] == '' "
+         "and worksheet.CELLS[3, 6] == 2020.0 and worksheet.CELLS[3, 7] == 2021.0 and len(worksheet.CELLS) == 8")
+_full_cols = "attribute_index == {'Provenance': 1} and units_index == 2 and uncertainty_index == 3 and constant_index == 4 and offset == 6 and current_row == 3"
+for _tag, _settings, _data, _heading in (("columns_inferred_from_the_data", None, True, "Constant"), ("columns_switched_on", True, False, "Assumption")):
+    CONTRACTS["excel:TimeDependentValuesEntry.write#header_%s" % _tag] = dict(
+        schema=schema, fragment={"before": "for row_name, row_ts in self.ts.items()"}, make_env=_make_env_header(_settings, _data, _heading), call_stubs=_hdr_stubs,
+        ensures=[("C16.the_header_names_every_column_in_order", _full % _heading),
+                 ("C16.values_are_written_to_the_column_their_heading_is_in", _full_cols),
+                 ("C16.the_optional_columns_are_on", "write_units is True and write_uncertainty is True and write_assumption is True")],
+        defined_props=["C16"])
+CONTRACTS["excel:TimeDependentValuesEntry.write#header_no_optional_columns"] = dict(
+    schema=schema, fragment={"before": "for row_name, row_ts in self.ts.items()"}, make_env=_make_env_header(None, False), call_stubs=_hdr_stubs,
+    ensures=[("C16.the_header_names_every_column_in_order", "worksheet.CELLS[3, 0] == 'table' and worksheet.CELLS[3, 1] == 'Provenance' and worksheet.CELLS[3, 2] == 2020.0 and worksheet.CELLS[3, 3] == 2021.0 and len(worksheet.CELLS) == 4"),
+             ("C16.values_are_written_to_the_column_their_heading_is_in", "attribute_index == {'Provenance': 1} and offset == 2"),
+             ("C16.the_optional_columns_are_off", "not write_units and not write_uncertainty and not write_assumption")],
+    defined_props=["C16"])
+
+
+def _make_env_parse(cells, skip_first=True):
+    def make(it):
+        from pyvc.interp import PyObjV
+        from pyvc import source
+
+        em = source.load("excel")
+        cell = lambda v: PyObjV("Cell", em, {"value": v, "data_type": ("s" if isinstance(v, str) else "n"), "is_date": False, "coordinate": "X1", "row": 1})
+        return {"row": [cell(v) for v in cells], "known_headings": {"units", "uncertainty", "constant", "assumption"}, "skip_first": skip_first}
+
+    return make
+
+
+CONTRACTS["excel:_parse_ts_header#the_header_the_writer_produces"] = dict(
+    schema=schema, make_env=_make_env_parse(["table", "Provenance", "Units", "Uncertainty", "Constant", None, 2020.0, 2021.0]),  # an empty string written by xlsxwriter is a blank cell: openpyxl reads None
+    ensures=[("C16.each_heading_resolves_to_the_column_it_is_written_in", "result[0] == {'Provenance': 1, 'units': 2, 'uncertainty': 3, 'constant': 4} and result[1] == {2020.0: 6, 2021.0: 7}"),
+             ("C16.the_years_of_the_table_are_its_year_columns_in_order", "len(result[2]) == 2 and result[2][0] == 2020.0 and result[2][1] == 2021.0")],
+    defined_props=["C16"])
+CONTRACTS["excel:_parse_ts_header#hand_edited_header"] = dict(
+    schema=schema, make_env=_make_env_parse(["table", " UNITS ", None, " assumption", 2021.0, 2020.0, "#ignore the rest", 2022.0]),
+    ensures=[("C16.known_headings_are_matched_in_any_case_blanks_skipped_and_ignored_columns_dropped", "result[0] == {'units': 1, 'assumption': 3} and result[1] == {2021.0: 4, 2020.0: 5}"),
+             ("C16.the_years_of_the_table_are_its_year_columns_in_order", "len(result[2]) == 2 and result[2][0] == 2020.0 and result[2][1] == 2021.0")],
+    defined_props=["C16"])
+CONTRACTS["excel:_parse_ts_header#duplicate_heading"] = dict(
+    schema=schema, make_env=_make_env_parse(["table", "Units", "units", 2020.0]), call_stubs={"get_column_letter": (lambda it, *a: "A")},
+    raises={"Exception": "True"}, raises_props=["C16", "C18"], ensures=[], defined_props=["C16", "C18"])
+CONTRACTS["excel:_parse_ts_header#duplicate_year"] = dict(
+    schema=schema, make_env=_make_env_parse(["table", "Units", 2020.0, 2020.0]), call_stubs={"get_column_letter": (lambda it, *a: "A")},
+    raises={"Exception": "True"}, raises_props=["C16", "C18"], ensures=[], defined_props=["C16", "C18"])
